@@ -92,6 +92,12 @@ func semanticTokensForTraversal(traversal hcl.Traversal) []lang.SemanticToken {
 				},
 			}
 
+			if idxRange.End.Byte <= idxRange.Start.Byte {
+				// an index step still being typed ("[0" without the closing
+				// bracket) leaves nothing between the assumed brackets
+				continue
+			}
+
 			if ts.Key.Type() == cty.String {
 				tokens = append(tokens, lang.SemanticToken{
 					Type:      lang.TokenMapKey,
